@@ -21,6 +21,7 @@ def run(chk):
     TR.environment_networks(chk, src)
     TR.state_networks(chk, src, which=("merge", "apply", "todense_s", "expectation1", "rdm1", "rdm2"))
     TR.decomposition_axes(chk, src)
+    TR.dof_rdm(chk, src)
     TR.direct_sum(chk, src)
     TR.compress_sweep(chk, src)
     if chk.tier == "thorough":
@@ -36,6 +37,6 @@ META = {
     "text": "Decides that the named-index and axis bookkeeping of the tree code is self-consistent and matches the documented conventions on a set of symbolic "
             "topologies covering every shape-dependent branch (arities, child positions, multi-basis nodes, partial operators): all contraction networks, "
             "all decompositions, addition and the compression sweep. Values (norms, entropies, dense equality) are not decided.",
-    "note": "calc_1dof_rdm / calc_2dof_rdm (integer-labelled partial traces) and entropy formulas are not analysed.",
+    "note": "Entropy formulas (functions of the RDM values) are not analysed.",
     "design_ref": "DESIGN.md 3.3, 4 (C11)",
 }
